@@ -109,3 +109,19 @@ contract('info.SectionType.getsectioninfo', params={'type_': 'str', 'name': 'Opt
                                        label='remaining-search-equals-search')],
                      hints=['slot_case(key, info, type_, name)'],
                      locals={})])
+
+# ---- defaults ----------------------------------------------------------------------------------------------------
+import contracts.matcher_types      # Slot / Item / MItem
+model('info.BaseKeyInfo', fields={'_finished': 'bool', '_rawdefaults': 'Slot', '_default': 'Slot'})
+contract('info.BaseInfo.getdefault', returns='Slot', pure=True,
+         ensures=[Clause('result == default_of(self)', carries='C02,C13', label='copy-of-the-declared-defaults')],
+         notes='interface contract of the three getdefault() implementations; the result is a COPY '
+               '(copy.copy of an owned container is a new container with the same items: value semantics)')
+contract('info.KeyInfo.getdefault', returns='Slot',
+         ensures=[Clause('result == default_of(self)', carries='C02,C13', label='copy-of-the-declared-defaults')],
+         fresh_result=True)
+contract('info.MultiKeyInfo.getdefault', returns='Slot',
+         ensures=[Clause('result == default_of(self)', carries='C02,C13', label='copy-of-the-declared-defaults')],
+         fresh_result=True)
+contract('info.SectionInfo.getdefault', returns='Slot',
+         ensures=[Clause('result == default_of(self)', carries='C02', label='sections-have-no-defaults')])
